@@ -69,17 +69,30 @@ def isNilSrc : SourceList → Bool
   | .nil => true
   | .cons _ _ => false
 
+def odIsNone : Overdraft → Bool
+  | .none => true
+  | .upTo _ => false
+  | .unbounded => false
+
+/-- An overdraft bound (if any) is a cap. -/
+def odWf (env : Env) (asset : String) : Overdraft → Bool
+  | .none => true
+  | .unbounded => true
+  | .upTo x => okCap env asset x
+
+def notWorld (env : Env) (e : Expr) : Bool :=
+  match evalAccount env e with
+  | .ok a => decide (a ≠ "world")
+  | .error _ => false
+
+/-- A source leaf: `@world` carries no overdraft clause; any other account expression does
+    not evaluate to `world`, and its overdraft bound (if any) is a cap. -/
+def leafWf (env : Env) (asset : String) (e : Expr) (od : Overdraft) : Bool :=
+  okAcct env e && (if e.isWorld then odIsNone od else notWorld env e && odWf env asset od)
+
 mutual
   def srcWf (env : Env) (asset : String) : Source → Bool
-    | .account e od =>
-      okAcct env e &&
-      (if e.isWorld then (match od with | .none => true | _ => false)
-       else
-         (match evalAccount env e with | .ok a => decide (a ≠ "world") | .error _ => false) &&
-         (match od with
-          | .none => true
-          | .unbounded => true
-          | .upTo x => okCap env asset x))
+    | .account e od => leafWf env asset e od
     | .maxed m s => okCap env asset m && srcWf env asset s
     | .inorder ss => !isNilSrc ss && srcsWf env asset ss
   /-- every source but the last one is bounded (`fallback = none`) -/
